@@ -1509,6 +1509,21 @@ class Interp:
         """x[mask] = value, element-wise; an undecided mask entry keeps both outcomes under its condition"""
         if len(mask) != len(vec):
             raise SymRaise("IndexError", "boolean index did not match indexed array")
+        if isinstance(value, Vec):
+            # x[mask] = values: one value per selected element, in order (the mask has to be decided for that)
+            decided = [self.truth(m) for m in mask.items]
+            if any(c is not sp.true and c is not sp.false for c in decided):
+                raise AnalysisError("x[mask] = array with a mask whose entries are not decided")
+            picked = [i for i, c in enumerate(decided) if c is sp.true]
+            if len(value) == 1:
+                for i in picked:
+                    vec.items[i] = value.items[0]
+                return
+            if len(picked) != len(value):
+                raise SymRaise("ValueError", "NumPy boolean array indexing assignment cannot assign the given number of values")
+            for i, v in zip(picked, value.items):
+                vec.items[i] = v
+            return
         for i, m in enumerate(mask.items):
             c = self.truth(m)
             if c is sp.true:
